@@ -174,6 +174,24 @@ def rule_lib_pitfall(ctx, prefix, fi):
             if _optnum(t) and isinstance(t, ast.Name):
                 bad.append((n, f"`{norm(n.test)[:50]}` tests the truth of the optional numeric argument `{t.id}`: 0 is a "
                                f"legal value and takes the branch meant for \"not given\" - test `is None`"))
+    # partial I/O that the call itself does not report: `f.readinto(buf)` returns the number of bytes actually read and
+    # leaves the rest of the buffer as it was (uninitialised for np.empty) - ignoring the count accepts a short file;
+    # a file opened for writing with buffering=0 is a raw FileIO whose write() may accept fewer bytes than given
+    pm1 = {id(c): p for p in ast.walk(fi.node) for c in ast.iter_child_nodes(p)}
+    for n in walk_no_nested(fi.node):
+        if isinstance(n, ast.Call) and isinstance(n.func, ast.Attribute) and n.func.attr in ("readinto", "readinto1") \
+                and isinstance(pm1.get(id(n)), ast.Expr):
+            bad.append((n, f"`{norm(n)[:60]}` ignores the number of bytes read: at the end of a short file the buffer keeps "
+                           f"whatever it held (uninitialised memory for np.empty) and nothing downstream fails - "
+                           f"np.fromfile + an exact-shape reshape is what reports a truncated input"))
+        if isinstance(n, ast.Call) and isinstance(n.func, ast.Name) and n.func.id == "open" and \
+                any(k.arg == "buffering" and isinstance(k.value, ast.Constant) and k.value.value == 0 for k in n.keywords):
+            mode = n.args[1].value if len(n.args) > 1 and isinstance(n.args[1], ast.Constant) else \
+                next((k.value.value for k in n.keywords if k.arg == "mode" and isinstance(k.value, ast.Constant)), "r")
+            if isinstance(mode, str) and set(mode) & set("wax+"):
+                bad.append((n, f"`{norm(n)[:70]}` opens an unbuffered (raw) file for writing: its write() may accept fewer "
+                               f"bytes than it is given (disk full, quota, signals) and only returns the count - a partial "
+                               f"write is neither retried nor raised, the tool returns normally with a truncated file"))
     # bounded line reads: readline(n) returns at most n characters — a FAB header or a header line longer than n (large
     # indices, many digits) is cut in the middle and the rest is read as the next line / as data
     for n in walk_no_nested(fi.node):
